@@ -40,7 +40,7 @@ impl Ty for Nonce { const NAME: &'static str = "nonce"; }
 impl Ty for AssetIssuance { const NAME: &'static str = "issuance"; fn extra(&self) -> String { format!(" {}", self.is_null()) } }
 impl Ty for OutPoint { const NAME: &'static str = "outpoint"; fn extra(&self) -> String { format!(" {}", self.vout) } }
 impl Ty for Script { const NAME: &'static str = "script"; }
-impl Ty for LockTime { const NAME: &'static str = "locktime"; fn extra(&self) -> String { format!(" {}", self.to_consensus_u32()) } }
+impl Ty for LockTime { const NAME: &'static str = "locktime"; fn extra(&self) -> String { format!(" {} {}", self.to_consensus_u32(), if self.is_block_height() { "height" } else { "time" }) } }
 impl Ty for Params { const NAME: &'static str = "params"; }
 impl Ty for BlockHeader { const NAME: &'static str = "header"; fn extra(&self) -> String { format!(" {} {}", self.version, self.is_dynafed()) } }
 impl Ty for Block { const NAME: &'static str = "block"; fn extra(&self) -> String { format!(" {}", self.txdata.len()) } }
@@ -316,6 +316,33 @@ pub fn run(rng: &mut R, out: &mut Out) {
         on_value(out, &gen::block(rng), rng, 3);
     }
     // constructors
+    // lock-time constructors around LOCK_TIME_THRESHOLD: heights are exactly the values below it, times exactly
+    // those from it upwards; every constructed value round-trips to an EQUAL value (same kind), and the K op
+    // prints the kind
+    for n in [0u32, 1, 499_999_998, 499_999_999, 500_000_000, 500_000_001, u32::MAX] {
+        let below = n < 500_000_000;
+        let h = LockTime::from_height(n);
+        let t = LockTime::from_time(n);
+        out.s("locktime_from_height_iff_below_threshold", h.is_ok() == below, || format!("n={}", n));
+        out.s("locktime_from_time_iff_at_or_above_threshold", t.is_ok() == !below, || format!("n={}", n));
+        for v in [h.ok(), t.ok(), Some(LockTime::from_consensus(n))].into_iter().flatten() {
+            let b = serialize(&v);
+            let back = deserialize::<LockTime>(&b);
+            out.s("locktime_constructor_roundtrips_to_equal_value", matches!(&back, Ok(x) if *x == v), || format!("n={} value={:?} back={:?}", n, v, back));
+            out.s("locktime_kind_matches_threshold", v.is_block_height() == below && v.is_block_time() == !below, || format!("n={} value={:?}", n, v));
+            on_value(out, &v, rng, 0);
+        }
+    }
+    // transactions whose ONLY witness data is a stack of empty items (a witness that is present but has no bytes)
+    for (sw, pw) in [(vec![vec![]], vec![]), (vec![vec![], vec![]], vec![]), (vec![], vec![vec![]]), (vec![vec![]], vec![vec![]])] {
+        let mut t = gen::tx_wide(rng, 2, 1);
+        t.input[1].witness.script_witness = sw.clone();
+        t.input[1].witness.pegin_witness = pw.clone();
+        on_value(out, &t, rng, 1);
+        let w = TxInWitness { amount_rangeproof: None, inflation_keys_rangeproof: None, script_witness: sw, pegin_witness: pw };
+        out.s("witness_with_empty_items_is_not_empty", !w.is_empty(), || format!("{:?}", w));
+        on_value(out, &w, rng, 0);
+    }
     on_value(out, &TxOut::new_fee(gen::u64_edge(rng), gen::asset_id(rng)), rng, 1);
     on_value(out, &TxIn::default(), rng, 1);
     on_value(out, &TxOut::default(), rng, 1);
